@@ -71,12 +71,13 @@ def reply (st : St) (cid : Nat) (r : St × List Out) : St × String :=
 def stepLine (st : St) (toks : List String) : St × String :=
   let r : Option (St × String) :=
     match toks with
-    | ["reset", pfx, fl, socks, circs, tep] => do
+    | ["reset", pfx, fl, socks, circs, tep, xids] => do
       let pfx ← ofHex? pfx
       let fl ← natList? fl
       let ss ← (← listItems? socks).mapM parseSock
       let cs ← (← listItems? circs).mapM parseCirc
-      pure ({ flags := fl, pfx := pfx, socks := ss, circs := cs, tunnelEp := tep == "1" }, "ok")
+      let xs ← natList? xids
+      pure ({ flags := fl, pfx := pfx, socks := ss, circs := cs, tunnelEp := tep == "1", exitIds := xs }, "ok")
     | ["flags", fl] => do
       let fl ← natList? fl
       pure ((step st (.setFlags fl)).1, "ok")
